@@ -78,7 +78,16 @@ def cwd(path: str) -> typing.Iterator[None]:
 def spell_directory(base: str, rel: str, style: int, link_dir: str) -> typing.Any:
     """One of the equivalent ways of naming directory <base>/<rel>; relative forms assume cwd == base."""
     absolute = os.path.join(base, rel)
-    s = style % 8
+    s = style % 10
+    if s in (8, 9):
+        # "<symlink to the directory itself>/../<name>": the link lives elsewhere, so only physical resolution (the parent of the
+        # link's *target*) finds the directory - collapsing "x/.." textually would look next to the link
+        link = os.path.join(link_dir, "self_" + str(abs(hash_str(absolute)) % 100000))
+        if not os.path.lexists(link):
+            os.symlink(absolute, link)
+        if s == 9:
+            link = os.path.relpath(link, base)  # (relpath would collapse the ".." if it were applied to the whole spelling)
+        return os.path.join(link, "..", os.path.basename(absolute))
     if s == 0:
         return absolute
     if s == 1:
